@@ -92,3 +92,15 @@ Definition std_parse_bool (s : list Z) : option bool :=
   if list_eqb Z.eqb s str_true then Some true
   else if list_eqb Z.eqb s str_false then Some false
   else None.
+
+(** decimal printing (what [to_string] does for an integer), to state "every value of the
+    type, printed, parses back to itself".  [fuel] bounds the number of digits; [dec] passes
+    enough ([digits_val_dec] in the proofs pins the definition: the printed string denotes
+    the number). *)
+Fixpoint dec_digits (fuel : nat) (n : Z) : list Z :=
+  match fuel with
+  | O => []
+  | S f => if n <? 10 then [48 + n] else dec_digits f (n / 10) ++ [48 + n mod 10]
+  end.
+Definition dec (n : Z) : list Z := dec_digits (S (Z.to_nat (Z.log2 n))) n.
+Definition show_int (v : Z) : list Z := if v <? 0 then 45 :: dec (- v) else dec v.
